@@ -411,6 +411,9 @@ def run(res, tier, seed):
     for t in PARSE_ERRORS:
         queries.append({'name': 'parse-error', 'text': t, 'table': table, 'btable': None, 'abstract': None})
     # queries whose input table is named by FROM and comes from the registry, mixed with queries over a fixed input
+    # two ORDER BY queries and one that FAILS after it has buffered records: a buffer that outlives its query shows in the next sorted query
+    for name, text in (('sorted2', 'select a2, a1 order by a1 desc'), ('sorted-fail', 'select a1, a2 order by 1 // (2 - NR)'), ('sorted-top', 'select top 1 a1 order by a2')):
+        queries.append({'name': name, 'text': text, 'table': table, 'btable': None, 'abstract': None})
     for name, text, needs_b in (('from-select', 'select a2, a1 from t1 where a1 != "skip"', False), ('from-join', 'select a1, b2 from t1 join b on a1 == b1', True),
                                 ('from-missing', 'select a1 from nope', False)):
         queries.append({'name': name, 'text': text, 'table': table, 'btable': BTABLE if needs_b else None, 'abstract': None})
@@ -442,6 +445,11 @@ def run(res, tier, seed):
         import random
         rnd = random.Random(seed + 16)
         pairs = rnd.sample(pairs, 8)
+    # always: two queries of the SAME kind side by side (two sorts, two aggregates, two DISTINCTs) — state kept per CLASS of writer would be shared exactly there
+    byname = {q['name']: q for q in queries}
+    for a, b in (('sorted', 'sorted2'), ('aggregate', 'aggregate'), ('dcount', 'dcount'), ('sorted', 'sorted-top')):
+        if a in byname and b in byname:
+            pairs.append((byname[a], dict(byname[b])))
     limit = 0 if tier == 'quick' else 3500
     with ThreadPoolExecutor(max_workers=common.NPROC) as ex:
         outs = list(ex.map(lambda p: impl('interleave', [[p[0], p[1]], limit], 3000), pairs))
@@ -457,7 +465,7 @@ def run(res, tier, seed):
     res.sample({'pair': [pairs[0][0]['text'], pairs[0][1]['text']], 'steps': [pairs[0][0]['steps'], pairs[0][1]['steps']], 'interleavings': outs[0]['n']})
     # (3) histories
     hist_pool = [q for q in queries if q['name'] in ('select', 'update', 'aggregate', 'like', 'rterror', 'parse-error', 'sorted')][:7] + \
-                [q for q in queries if q['name'] in ('from-select', 'from-join')]
+                [q for q in queries if q['name'] in ('from-select', 'from-join', 'sorted2', 'sorted-fail')]
     maxlen = 3 if tier == 'quick' else 4
     h = impl('history', [hist_pool, maxlen], 3000)
     res.evaluations += h['n']
